@@ -9,8 +9,9 @@ def main(argv):
     inp, outp = argv
     with open(inp) as f:
         job = json.load(f)
+    from lv import core
     from lv.props import c13_lib
-    res = c13_lib.run_steps(job['pool'], job['steps'])
+    res = core.deep_call(c13_lib.run_steps, job['pool'], job['steps'])
     with open(outp, 'w') as f:
         json.dump(res, f)
 
